@@ -1,4 +1,5 @@
 import KoordVerif.Model.C09
+import KoordVerif.Model.C09Plugin
 /-
 C09 — property theorems (DESIGN.md §4 C09).  The float64 operations are a parameter `F`; the
 theorems assume only the algebraic facts collected in `FloatOK` (the harness tests them on every
@@ -648,5 +649,662 @@ example : calculate exactOps stdPrio exStrategy exNode [] exPods exMetrics [] tr
 example : All2 PodLe [({ lse := false, hasMetric := true, reqC := 1, reqM := 1, usedC := 1, usedM := 1, numa := [] } : RPod)]
     [{ lse := false, hasMetric := true, reqC := 2, reqM := 1, usedC := 5, usedM := 1, numa := [] }] :=
   .cons ⟨rfl, rfl, rfl, by decide, by decide, by decide, by decide⟩ .nil
+
+
+/-! ## EXTENSION 1 — policy = request: the exact guarantees -/
+
+/-- memory, policy=request — EXACT value: min(cap limit, max(capacity − margin − reservation − Σ HP requests, 0));
+    system usage does not enter at all. -/
+theorem batch_mem_request_exact (cl : Option Int) (cap margin reserved sys hpReq hpUsed hpMax : Int) :
+    byPolicy .mem .request cl cap margin reserved sys hpReq hpUsed hpMax =
+      match cl with
+      | none => max (cap - margin - reserved - hpReq) 0
+      | some l => min l (max (cap - margin - reserved - hpReq) 0) := by
+  unfold byPolicy pickPolicy
+  cases cl with
+  | none => simp
+  | some l => simp; split <;> omega
+
+/-- cpu, policy=request — EXACT value: the one of policy=usage (the request policy does not exist for cpu). -/
+theorem batch_cpu_request_exact (cl : Option Int) (cap margin reserved sys hpReq hpUsed hpMax : Int) :
+    byPolicy .cpu .request cl cap margin reserved sys hpReq hpUsed hpMax =
+      byPolicy .cpu .usage cl cap margin reserved sys hpReq hpUsed hpMax := by
+  unfold byPolicy pickPolicy; rfl
+
+/-- memory, policy=request: the amount exceeds the statement's bound by at most the part of the system usage
+    that is not covered by the reservation, (sys − reserved)⁺ … -/
+theorem batch_upper_mem_request_slack (cl : Option Int) (cap margin reserved sys hpReq hpUsed hpMax : Int) :
+    byPolicy .mem .request cl cap margin reserved sys hpReq hpUsed hpMax ≤
+      max (cap - margin - max sys reserved - literalHP .request hpReq hpUsed hpMax) 0 + max (sys - reserved) 0 := by
+  unfold byPolicy pickPolicy literalHP
+  cases cl with
+  | none => simp; omega
+  | some l => simp; split <;> omega
+
+/-- … hence the statement's bound holds as soon as the reservation covers the system usage (decidable; the harness
+    evaluates the literal bound on every run and classifies an excess by exactly this slack). -/
+theorem batch_upper_mem_request_covered (cl : Option Int) (cap margin reserved sys hpReq hpUsed hpMax : Int)
+    (h : sys ≤ reserved) :
+    byPolicy .mem .request cl cap margin reserved sys hpReq hpUsed hpMax ≤
+      max (cap - margin - max sys reserved - literalHP .request hpReq hpUsed hpMax) 0 := by
+  have := batch_upper_mem_request_slack cl cap margin reserved sys hpReq hpUsed hpMax
+  omega
+
+/-- the slack is attained: cap 100, system usage 30, nothing reserved ⇒ 100 = 70 + 30. -/
+theorem batch_upper_mem_request_slack_tight :
+    byPolicy .mem .request none 100 0 0 30 0 0 0 = max (100 - 0 - max 30 0 - literalHP .request 0 0 0) 0 + max (30 - 0) 0 := by decide
+
+/-- cpu, policy=request: the amount exceeds the request-based bound by at most (Σ HP requests − Σ HP charged usage)⁺ … -/
+theorem batch_upper_cpu_request_slack (cl : Option Int) (cap margin reserved sys hpReq hpUsed hpMax : Int) :
+    byPolicy .cpu .request cl cap margin reserved sys hpReq hpUsed hpMax ≤
+      max (cap - margin - max sys reserved - literalHP .request hpReq hpUsed hpMax) 0 + max (hpReq - hpUsed) 0 := by
+  unfold byPolicy pickPolicy literalHP
+  cases cl with
+  | none => simp; omega
+  | some l => simp; split <;> omega
+
+/-- … hence the request-based bound holds whenever the HP pods are charged at least their requests. -/
+theorem batch_upper_cpu_request_covered (cl : Option Int) (cap margin reserved sys hpReq hpUsed hpMax : Int)
+    (h : hpReq ≤ hpUsed) :
+    byPolicy .cpu .request cl cap margin reserved sys hpReq hpUsed hpMax ≤
+      max (cap - margin - max sys reserved - literalHP .request hpReq hpUsed hpMax) 0 := by
+  have := batch_upper_cpu_request_slack cl cap margin reserved sys hpReq hpUsed hpMax
+  omega
+
+/-- the slack is attained: one HP pod requesting 40 and using 10 ⇒ 90 = 60 + 30. -/
+theorem batch_upper_cpu_request_slack_tight :
+    byPolicy .cpu .request none 100 0 0 0 40 10 40 = max (100 - 0 - max 0 0 - literalHP .request 40 10 40) 0 + max (40 - 10) 0 := by decide
+
+/-- node level, policy=request, both dimensions, in the terms of the statement: the bound of the statement plus
+    the exact slack of the dimension. -/
+def requestSlack (k : PrioConsts) (n : NodeIn) (hs : List HostApp) (ps : List RPod) (dg : List Metric) : Dim → Int
+  | .mem => max (n.sys .mem + hostHPUsed k .batch hs .mem - nodeReserved n .mem) 0
+  | .cpu => max (hpReq .cpu ps - hpUsed .cpu ps dg) 0
+
+theorem batch_upper_request (F : FloatOps) (k : PrioConsts) (s : Strategy) (n : NodeIn) (hs : List HostApp)
+    (pods : List PodIn) (ms : List Metric) (d : Dim) (hpol : s.pol d = .request) :
+    nodeBatch F k s n hs pods ms d ≤
+      max (n.cap d - safetyMargin F s d (n.cap d) - max (n.sys d + hostHPUsed k .batch hs d) (nodeReserved n d)
+            - hpReq d (resolvePods pods (metricMap ms))) 0
+        + requestSlack k n hs (resolvePods pods (metricMap ms)) (dangling pods (metricMap ms)) d := by
+  unfold nodeBatch nodeBatchR requestSlack
+  rw [hpol]
+  cases d
+  · exact batch_upper_cpu_request_slack _ _ _ _ _ _ _ _
+  · exact batch_upper_mem_request_slack _ _ _ _ _ _ _ _
+
+/-- under every policy (request included) the amount never exceeds capacity − margin − reservation (clamped):
+    the weakest consumption term is always subtracted. -/
+theorem batch_upper_any_policy (d : Dim) (pol : Policy) (cl : Option Int) (cap margin reserved sys hpReq hpUsed hpMax : Int)
+    (h1 : 0 ≤ hpReq) (h2 : 0 ≤ hpUsed) (h3 : 0 ≤ hpMax) :
+    byPolicy d pol cl cap margin reserved sys hpReq hpUsed hpMax ≤ max (cap - margin - reserved) 0 := by
+  unfold byPolicy pickPolicy
+  cases cl with
+  | none => cases d <;> cases pol <;> simp <;> omega
+  | some l => cases d <;> cases pol <;> simp <;> split <;> omega
+
+/-! ## EXTENSION 2 — mid plugin glue (Calculate / getUnallocated / degrade / Prepare) -/
+
+/-- percentages are non-negative after defaulting when the set ones and the defaults are. -/
+def MidPctOK (df : MidDefaults) (ms : MidStrategy) : Prop :=
+  0 ≤ ms.thr df .cpu ∧ 0 ≤ ms.thr df .mem ∧ 0 ≤ ms.res df .cpu ∧ 0 ≤ ms.res df .mem ∧ 0 ≤ ms.una df
+
+theorem MidPctOK.thr_nonneg {df : MidDefaults} {ms : MidStrategy} (h : MidPctOK df ms) (d : Dim) : 0 ≤ ms.thr df d := by
+  cases d
+  · exact h.1
+  · exact h.2.1
+
+theorem MidPctOK.res_nonneg {df : MidDefaults} {ms : MidStrategy} (h : MidPctOK df ms) (d : Dim) : 0 ≤ ms.res df d := by
+  cases d
+  · exact h.2.2.1
+  · exact h.2.2.2.1
+
+/-- the defaults apply exactly to the nil pointers (getPercentFromStrategy). -/
+theorem mid_defaulting (df : MidDefaults) (ms : MidStrategy) :
+    (ms.cpuThr = none → ms.thr df .cpu = df.cpuThr) ∧ (∀ v, ms.cpuThr = some v → ms.thr df .cpu = v) ∧
+    (ms.memThr = none → ms.thr df .mem = df.memThr) ∧ (∀ v, ms.memThr = some v → ms.thr df .mem = v) ∧
+    (ms.unalloc = none → ms.una df = df.unalloc) ∧ (∀ v, ms.unalloc = some v → ms.una df = v) := by
+  refine ⟨?_, ?_, ?_, ?_, ?_, ?_⟩ <;> intros <;> simp_all [MidStrategy.thr, MidStrategy.una]
+
+theorem midUnallocated_nonneg (k : PrioConsts) (n : NodeIn) (hs : List HostApp) (pods : List PodIn) (d : Dim) :
+    0 ≤ midUnallocated k n hs pods d := by
+  unfold midUnallocated; omega
+
+/-- Unallocated[Mid] never exceeds capacity − max(reservation, system usage + prod host apps) − Σ prod requests
+    (clamped at 0): the documented `max(NodeCapacity − NodeReserved − Allocated[Prod], 0)`. -/
+theorem midUnallocated_eq (k : PrioConsts) (n : NodeIn) (hs : List HostApp) (pods : List PodIn) (d : Dim) :
+    midUnallocated k n hs pods d =
+      max (n.cap d - max (max (kubeletReserved n d) (n.anno d)) (n.sys d + hostHPUsed k .mid hs d) - midProdAllocated pods d) 0 := by
+  unfold midUnallocated midReserved nodeReserved; rfl
+
+/-- published mid amount ≥ 0 -/
+theorem mid_amount_nonneg (F : FloatOps) (hF : FloatOK F) (k : PrioConsts) (df : MidDefaults) (ms : MidStrategy) (n : NodeIn)
+    (hs : List HostApp) (pods : List PodIn) (mm : MidMetric) (d : Dim) (hcap : 0 ≤ n.cap d) (hp : MidPctOK df ms) :
+    0 ≤ midAmount F k df ms n hs pods mm d := by
+  unfold midAmount
+  split
+  · exact (mid_static_bounds F hF _ _ _ hcap (hp.res_nonneg d) (hp.thr_nonneg d)).1
+  · exact (mid_policy_bounds F hF _ _ _ _ _ _ hcap (midUnallocated_nonneg k n hs pods d) hp.2.2.2.2 (hp.thr_nonneg d)).1
+
+/-- published mid amount ≤ capacity · MidThresholdPercent (both modes) -/
+theorem mid_amount_le_threshold (F : FloatOps) (hF : FloatOK F) (k : PrioConsts) (df : MidDefaults) (ms : MidStrategy) (n : NodeIn)
+    (hs : List HostApp) (pods : List PodIn) (mm : MidMetric) (d : Dim) (hcap : 0 ≤ n.cap d) (hp : MidPctOK df ms) :
+    midAmount F k df ms n hs pods mm d ≤ F.mulPct (n.cap d) (ms.thr df d) := by
+  unfold midAmount
+  split
+  · exact (mid_static_bounds F hF _ _ _ hcap (hp.res_nonneg d) (hp.thr_nonneg d)).2
+  · exact (mid_policy_bounds F hF _ _ _ _ _ _ hcap (midUnallocated_nonneg k n hs pods d) hp.2.2.2.2 (hp.thr_nonneg d)).2
+
+/-- and hence ≤ capacity for a threshold ≤ 100 % (what IsColocationStrategyValid enforces). -/
+theorem mid_amount_le_capacity (F : FloatOps) (hF : FloatOK F) (k : PrioConsts) (df : MidDefaults) (ms : MidStrategy) (n : NodeIn)
+    (hs : List HostApp) (pods : List PodIn) (mm : MidMetric) (d : Dim) (hcap : 0 ≤ n.cap d) (hp : MidPctOK df ms)
+    (h100 : ms.thr df d ≤ 100) : midAmount F k df ms n hs pods mm d ≤ n.cap d :=
+  Int.le_trans (mid_amount_le_threshold F hF k df ms n hs pods mm d hcap hp) (hF.mul_le _ _ hcap (hp.thr_nonneg d) h100)
+
+theorem midByPolicy_le_sum (F : FloatOps) (cap unallocated nodeUnused reclaimable unallocPct thrPct : Int) :
+    midByPolicy F cap unallocated nodeUnused reclaimable unallocPct thrPct ≤
+      max (min reclaimable nodeUnused) 0 + F.mulPct unallocated unallocPct := by
+  unfold midByPolicy; simp only
+  split <;> split <;> split <;> omega
+
+/-- policy mode: ≤ max(min(prodReclaimable, capacity − nodeUsage), 0) + Unallocated[Mid] · MidUnallocatedPercent -/
+theorem mid_amount_policy_le (F : FloatOps) (k : PrioConsts) (df : MidDefaults) (ms : MidStrategy) (n : NodeIn)
+    (hs : List HostApp) (pods : List PodIn) (mm : MidMetric) (d : Dim) (hmode : ms.static = false) :
+    midAmount F k df ms n hs pods mm d ≤
+      max (min (midReclaimable mm d) (midNodeUnused n mm d)) 0 + F.mulPct (midUnallocated k n hs pods d) (ms.una df) := by
+  unfold midAmount; simp only [hmode]
+  exact midByPolicy_le_sum F _ _ _ _ _ _
+
+/-- policy mode without a valid node usage or without a prod-reclaimable metric: only the unallocated share is published. -/
+theorem mid_amount_policy_no_metric (F : FloatOps) (k : PrioConsts) (df : MidDefaults) (ms : MidStrategy) (n : NodeIn)
+    (hs : List HostApp) (pods : List PodIn) (mm : MidMetric) (d : Dim) (hmode : ms.static = false)
+    (h : mm.usageValid = false ∨ mm.hasReclaim = false) :
+    midAmount F k df ms n hs pods mm d ≤ F.mulPct (midUnallocated k n hs pods d) (ms.una df) := by
+  have h1 := mid_amount_policy_le F k df ms n hs pods mm d hmode
+  have h2 : max (min (midReclaimable mm d) (midNodeUnused n mm d)) 0 = 0 := by
+    rcases h with h | h
+    · simp [midNodeUnused, h]; omega
+    · simp [midReclaimable, h]; omega
+  omega
+
+theorem midStatic_le_reserve (F : FloatOps) (cap reservedPct thrPct : Int) :
+    midStatic F cap reservedPct thrPct ≤ F.mulPct cap reservedPct := by
+  unfold midStatic; simp only; split <;> omega
+
+/-- static mode: ≤ capacity · MidStaticReservedPercent -/
+theorem mid_amount_static_le (F : FloatOps) (k : PrioConsts) (df : MidDefaults) (ms : MidStrategy) (n : NodeIn)
+    (hs : List HostApp) (pods : List PodIn) (mm : MidMetric) (d : Dim) (hmode : ms.static = true) :
+    midAmount F k df ms n hs pods mm d ≤ F.mulPct (n.cap d) (ms.res df d) := by
+  unfold midAmount; simp only [hmode]
+  exact midStatic_le_reserve F _ _ _
+
+/-- raising a prod pod's request, the reservation or the system usage never raises Unallocated[Mid]. -/
+theorem midUnallocated_antitone (k : PrioConsts) (n n' : NodeIn) (hs : List HostApp) (pods pods' : List PodIn) (d : Dim)
+    (hcap : n'.cap d = n.cap d) (halloc : n'.alloc d ≤ n.alloc d) (hanno : n.anno d ≤ n'.anno d) (hsys : n.sys d ≤ n'.sys d)
+    (hp : midProdAllocated pods d ≤ midProdAllocated pods' d) :
+    midUnallocated k n' hs pods' d ≤ midUnallocated k n hs pods d := by
+  unfold midUnallocated midReserved nodeReserved kubeletReserved
+  rw [hcap]; omega
+
+/-- stale or missing NodeMetric ⇒ both mid items are Reset (and Prepare removes them from the node). -/
+theorem mid_degrade_resets (F : FloatOps) (k : PrioConsts) (df : MidDefaults) (ms : MidStrategy) (degradeMin : Int) (n : NodeIn)
+    (hs : List HostApp) (pods : List PodIn) (mm : MidMetric) (hasUpd : Bool) (now upd : Int)
+    (h : hasUpd = false ∨ now > upd + degradeMin * 60) :
+    midCalculate F k df ms degradeMin n false hs pods mm hasUpd now upd = .degraded ∧
+    midPrepare (midCalculate F k df ms degradeMin n false hs pods mm hasUpd now upd) = (none, none) := by
+  have hd : isDegradeNeeded hasUpd now upd degradeMin = true := by
+    unfold isDegradeNeeded
+    rcases h with h | h <;> simp [h]
+  simp [midCalculate, hd, midPrepare]
+
+/-- whatever the outcome, a stale metric leaves no mid amount on the node (also when Calculate refuses the node). -/
+theorem mid_stale_withdrawn (F : FloatOps) (k : PrioConsts) (df : MidDefaults) (ms : MidStrategy) (degradeMin : Int) (n : NodeIn)
+    (allocNil : Bool) (hs : List HostApp) (pods : List PodIn) (mm : MidMetric) (hasUpd : Bool) (now upd : Int)
+    (h : hasUpd = false ∨ now > upd + degradeMin * 60) :
+    midPrepare (midCalculate F k df ms degradeMin n allocNil hs pods mm hasUpd now upd) = (none, none) := by
+  cases allocNil
+  · exact (mid_degrade_resets F k df ms degradeMin n hs pods mm hasUpd now upd h).2
+  · simp [midCalculate, midPrepare]
+
+/-- fresh metrics on a well-formed node: Prepare publishes exactly the calculated amounts. -/
+theorem mid_fresh_published (F : FloatOps) (k : PrioConsts) (df : MidDefaults) (ms : MidStrategy) (degradeMin : Int) (n : NodeIn)
+    (hs : List HostApp) (pods : List PodIn) (mm : MidMetric) (now upd : Int) (h : now ≤ upd + degradeMin * 60) :
+    midPrepare (midCalculate F k df ms degradeMin n false hs pods mm true now upd) =
+      (some (midAmount F k df ms n hs pods mm .cpu), some (midAmount F k df ms n hs pods mm .mem)) := by
+  have hd : isDegradeNeeded true now upd degradeMin = false := by
+    unfold isDegradeNeeded
+    have : ¬ (now > upd + degradeMin * 60) := by omega
+    simp [this]
+  simp [midCalculate, hd, midPrepare]
+
+/-- non-vacuity: a 100-core node, 20 reserved by the kubelet, a prod pod requesting 30, system usage 10,
+    prod-reclaimable 25 with 40 unused, 50 % of the unallocated: min(25,40) + (100−20−30)·50 % = 50, capped by 45 %. -/
+def exMidNode : NodeIn := { capC := 100, capM := 100, allocC := 80, allocM := 100, annoC := 0, annoM := 0, sysC := 10, sysM := 0 }
+def exMidStrategy : MidStrategy := { static := false, cpuThr := some 45, memThr := none, cpuRes := none, memRes := none, unalloc := some 50 }
+def exMidPods : List PodIn := [{ key := 1, active := true, prio := .prod, qos := .ls, reqC := 30, reqM := 0, numa := [] },
+                               { key := 2, active := true, prio := .mid, qos := .ls, reqC := 50, reqM := 0, numa := [] }]
+def exMidMetric : MidMetric := { hasReclaim := true, recC := 25, recM := 0, usageValid := true, useC := 60, useM := 0 }
+
+example : midUnallocated stdPrio exMidNode [] exMidPods .cpu = 50 := by decide
+example : midAmount exactOps stdPrio stdMidDefaults exMidStrategy exMidNode [] exMidPods exMidMetric .cpu = 45 := by decide
+example : midAmount exactOps stdPrio stdMidDefaults { exMidStrategy with cpuThr := none } exMidNode [] exMidPods exMidMetric .cpu = 50 := by decide
+example : MidPctOK stdMidDefaults exMidStrategy := by unfold MidPctOK; decide
+
+/-! ## EXTENSION 3 — Prepare / NeedSync / reconcile / histories -/
+
+/-- assumptions on the float64 comparison of IsQuantityDiff (`|new−old| > old·(k/1000)` on milli values):
+    it agrees with the exact comparison except possibly on the exact boundary, and equal non-negative amounts
+    never differ.  Checked by the harness on every generated (old, new, threshold). -/
+structure DiffOK (D : DiffOps) : Prop where
+  gt_sound    : ∀ o n k, 0 ≤ o → 0 ≤ k → D.diffGt o n k = true → o * k ≤ 1000 * ((n - o).natAbs : Int) ∧ n ≠ o
+  gt_complete : ∀ o n k, D.diffGt o n k = false → 1000 * ((n - o).natAbs : Int) ≤ o * k
+
+/-- the exact comparison satisfies them. -/
+def exactDiff : DiffOps := { diffGt := fun o n k => decide (o * k < 1000 * ((n - o).natAbs : Int)) }
+
+theorem exactDiff_ok : DiffOK exactDiff where
+  gt_sound o n k ho hk h := by
+    simp only [exactDiff, decide_eq_true_eq] at h
+    refine ⟨by omega, ?_⟩
+    intro hn; subst hn
+    have : 0 ≤ n * k := Int.mul_nonneg ho hk
+    simp at h; omega
+  gt_complete o n k h := by
+    simp only [exactDiff, decide_eq_false_iff_not] at h; omega
+
+/-! ### NeedSync is exactly "presence differs, or the relative difference exceeds the threshold" -/
+
+/-- two amounts of one extended resource are close: both absent, or both present and within the threshold
+    (`|new − old| ≤ old · k/1000`). -/
+def CloseRes (k : Int) (old new : Ext) : Prop :=
+  match old, new with
+  | none, none => True
+  | some o, some n => 1000 * ((n - o).natAbs : Int) ≤ o * k
+  | _, _ => False
+
+/-- they are far: presence differs, or both present and at least the threshold apart and different. -/
+def FarRes (k : Int) (old new : Ext) : Prop :=
+  match old, new with
+  | none, none => False
+  | some o, some n => o * k ≤ 1000 * ((n - o).natAbs : Int) ∧ n ≠ o
+  | _, _ => True
+
+theorem milli_scale (o n k : Int) :
+    ((1000 * n - 1000 * o).natAbs : Int) = 1000 * ((n - o).natAbs : Int) ∧ (1000 * o) * k = 1000 * (o * k) := by
+  refine ⟨by omega, ?_⟩
+  rw [Int.mul_assoc]
+
+theorem resDiff_false_close (D : DiffOps) (hD : DiffOK D) (k : Int) (old new : Ext) (h : resDiff D k old new = false) :
+    CloseRes k old new := by
+  cases old <;> cases new <;> simp [resDiff] at h <;> simp [CloseRes]
+  rename_i o n
+  have := hD.gt_complete _ _ _ h
+  obtain ⟨e1, e2⟩ := milli_scale o n k
+  rw [e1, e2] at this
+  omega
+
+theorem resDiff_true_far (D : DiffOps) (hD : DiffOK D) (k : Int) (hk : 0 ≤ k) (old new : Ext)
+    (hold : ∀ o, old = some o → 0 ≤ o) (h : resDiff D k old new = true) : FarRes k old new := by
+  cases old <;> cases new <;> simp [resDiff] at h <;> simp [FarRes]
+  rename_i o n
+  have ho := hold o rfl
+  have := hD.gt_sound _ _ _ (by omega) hk h
+  obtain ⟨e1, e2⟩ := milli_scale o n k
+  rw [e1, e2] at this
+  omega
+
+/-- an amount never differs from itself. -/
+theorem resDiff_self (D : DiffOps) (hD : DiffOK D) (k : Int) (hk : 0 ≤ k) (e : Ext) (he : ∀ o, e = some o → 0 ≤ o) :
+    resDiff D k e e = false := by
+  cases e with
+  | none => rfl
+  | some o =>
+    simp only [resDiff]
+    cases h : D.diffGt (1000 * o) (1000 * o) k
+    · rfl
+    · exact absurd rfl (hD.gt_sound _ _ _ (by have := he o rfl; omega) hk h).2
+
+def ClosePub (k : Int) (old new : Pub) : Prop :=
+  CloseRes k old.bc new.bc ∧ CloseRes k old.bm new.bm ∧ CloseRes k old.mc new.mc ∧ CloseRes k old.mm new.mm
+
+theorem CloseRes.refl (k : Int) (hk : 0 ≤ k) (e : Ext) (he : ∀ o, e = some o → 0 ≤ o) : CloseRes k e e := by
+  cases e with
+  | none => trivial
+  | some o =>
+    simp only [CloseRes]
+    have := he o rfl
+    have : 0 ≤ o * k := Int.mul_nonneg this hk
+    simp; omega
+
+def PubNonneg (p : Pub) : Prop :=
+  (∀ o, p.bc = some o → 0 ≤ o) ∧ (∀ o, p.bm = some o → 0 ≤ o) ∧ (∀ o, p.mc = some o → 0 ≤ o) ∧ (∀ o, p.mm = some o → 0 ≤ o)
+
+theorem ClosePub.refl (k : Int) (hk : 0 ≤ k) (p : Pub) (hp : PubNonneg p) : ClosePub k p p :=
+  ⟨CloseRes.refl k hk _ hp.1, CloseRes.refl k hk _ hp.2.1, CloseRes.refl k hk _ hp.2.2.1, CloseRes.refl k hk _ hp.2.2.2⟩
+
+/-- no plugin asks for a sync ⇒ all four resources are close. -/
+theorem plugins_quiet_close (D : DiffOps) (hD : DiffOK D) (k : Int) (old new : Pub)
+    (h : pluginsNeedSync D k old new = false) : ClosePub k old new := by
+  simp only [pluginsNeedSync, midNeedSync, batchNeedSync, Bool.or_eq_false_iff] at h
+  obtain ⟨⟨h1, h2⟩, h3, h4⟩ := h
+  exact ⟨resDiff_false_close D hD k _ _ h3, resDiff_false_close D hD k _ _ h4,
+         resDiff_false_close D hD k _ _ h1, resDiff_false_close D hD k _ _ h2⟩
+
+/-- a plugin asks for a sync ⇒ some resource is far. -/
+theorem plugins_loud_far (D : DiffOps) (hD : DiffOK D) (k : Int) (hk : 0 ≤ k) (old new : Pub) (hold : PubNonneg old)
+    (h : pluginsNeedSync D k old new = true) :
+    FarRes k old.bc new.bc ∨ FarRes k old.bm new.bm ∨ FarRes k old.mc new.mc ∨ FarRes k old.mm new.mm := by
+  simp only [pluginsNeedSync, midNeedSync, batchNeedSync, Bool.or_eq_true] at h
+  rcases h with (h | h) | (h | h)
+  · exact .inr (.inr (.inl (resDiff_true_far D hD k hk _ _ hold.2.2.1 h)))
+  · exact .inr (.inr (.inr (resDiff_true_far D hD k hk _ _ hold.2.2.2 h)))
+  · exact .inl (resDiff_true_far D hD k hk _ _ hold.1 h)
+  · exact .inr (.inl (resDiff_true_far D hD k hk _ _ hold.2.1 h))
+
+theorem resDiff_presence (D : DiffOps) (k : Int) (o n : Ext) (h : o.isSome ≠ n.isSome) : resDiff D k o n = true := by
+  cases o <;> cases n <;> simp_all [resDiff]
+
+/-- withdrawing (or first publishing) a resource always triggers a sync, whatever the threshold. -/
+theorem presence_change_syncs (D : DiffOps) (k : Int) (old new : Pub)
+    (h : old.bc.isSome ≠ new.bc.isSome ∨ old.bm.isSome ≠ new.bm.isSome ∨ old.mc.isSome ≠ new.mc.isSome ∨ old.mm.isSome ≠ new.mm.isSome) :
+    pluginsNeedSync D k old new = true := by
+  simp only [pluginsNeedSync, midNeedSync, batchNeedSync, Bool.or_eq_true]
+  rcases h with h | h | h | h
+  · exact .inr (.inl (resDiff_presence D k _ _ h))
+  · exact .inr (.inr (resDiff_presence D k _ _ h))
+  · exact .inl (.inl (resDiff_presence D k _ _ h))
+  · exact .inl (.inr (resDiff_presence D k _ _ h))
+
+/-! ### one reconcile -/
+
+/-- the node is written iff the last sync is missing or older than the interval, or some plugin sees a difference
+    (isNodeResourceSyncNeeded); otherwise the state is untouched. -/
+theorem reconcile_sync_iff (D : DiffOps) (thr interval now : Int) (st : RState) (c : Pub) :
+    (reconcileStep D thr interval now st c = { pub := c, lastSync := some now } ↔
+        (commonNeedSync st.lastSync now interval = true ∨ pluginsNeedSync D thr st.pub c = true) ∨ st = { pub := c, lastSync := some now }) ∧
+    (commonNeedSync st.lastSync now interval = false → pluginsNeedSync D thr st.pub c = false → reconcileStep D thr interval now st c = st) := by
+  unfold reconcileStep
+  constructor
+  · constructor
+    · intro h
+      split at h
+      · left; simp_all
+      · right; exact h
+    · rintro (h | h)
+      · simp [h]
+      · split
+        · rfl
+        · exact h
+  · intro h1 h2; simp [h1, h2]
+
+theorem commonNeedSync_iff (last : Option Int) (now interval : Int) :
+    commonNeedSync last now interval = true ↔ (last = none ∨ ∃ t, last = some t ∧ now - t > interval) := by
+  cases last <;> simp [commonNeedSync]
+
+/-- after EVERY reconcile (whatever the state before): either the node carries exactly the computed amounts, or
+    it was synced at most `interval` seconds ago and every amount is within the threshold of the computed one. -/
+theorem reconcile_close (D : DiffOps) (hD : DiffOK D) (thr interval now : Int) (st : RState) (c : Pub) :
+    let st' := reconcileStep D thr interval now st c
+    (st'.pub = c ∧ st'.lastSync = some now) ∨
+    (st' = st ∧ ClosePub thr st.pub c ∧ ∃ t, st.lastSync = some t ∧ now - t ≤ interval) := by
+  simp only [reconcileStep]
+  split
+  · left; exact ⟨rfl, rfl⟩
+  · rename_i h
+    simp only [Bool.or_eq_true, not_or, Bool.not_eq_true] at h
+    right
+    refine ⟨rfl, plugins_quiet_close D hD thr _ _ h.2, ?_⟩
+    cases hl : st.lastSync with
+    | none => simp [commonNeedSync, hl] at h
+    | some t =>
+      refine ⟨t, rfl, ?_⟩
+      have := h.1
+      simp [commonNeedSync, hl] at this
+      omega
+
+/-- a deviation that is tolerated (within the threshold) is removed by the first reconcile later than
+    `interval` after the last sync. -/
+theorem reconcile_expired_syncs (D : DiffOps) (thr interval now : Int) (st : RState) (c : Pub)
+    (h : st.lastSync = none ∨ ∃ t, st.lastSync = some t ∧ now - t > interval) :
+    (reconcileStep D thr interval now st c).pub = c := by
+  have := (commonNeedSync_iff st.lastSync now interval).mpr h
+  simp [reconcileStep, this]
+
+/-- stale metrics / disabled colocation (the plugins compute "absent" for every resource): after the reconcile
+    the node carries none of the four resources — from ANY previous state, regardless of thresholds. -/
+theorem reconcile_withdraws (D : DiffOps) (thr interval now : Int) (st : RState) :
+    (reconcileStep D thr interval now st Pub.empty).pub = Pub.empty := by
+  simp only [reconcileStep]
+  split
+  · rfl
+  · rename_i h
+    simp only [Bool.or_eq_true, not_or, Bool.not_eq_true] at h
+    have h2 := h.2
+    simp only [pluginsNeedSync, midNeedSync, batchNeedSync, Bool.or_eq_false_iff, Pub.empty] at h2
+    obtain ⟨⟨h1, h2⟩, h3, h4⟩ := h2
+    have key : ∀ e : Ext, resDiff D thr e none = false → e = none := by
+      intro e he; cases e <;> simp_all [resDiff]
+    cases hp : st.pub with
+    | mk bc bm mc mm =>
+      simp only [hp] at h1 h2 h3 h4
+      simp [Pub.empty, key _ h1, key _ h2, key _ h3, key _ h4]
+
+/-! ### histories of reconciles -/
+
+theorem runHist_append (D : DiffOps) (st : RState) (a b : List Round) :
+    runHist D st (a ++ b) = runHist D (runHist D st a) b := by
+  induction a generalizing st with
+  | nil => rfl
+  | cons r rs ih => simp [runHist, ih]
+
+/-- over any history of reconciles (metric updates, pod changes, strategy changes, node updates all enter through
+    `computed`, `thr`, `interval`), after every round `r` of the history: the node's amounts are the computed ones,
+    or they are within r's threshold of them and the node was written at most r.interval seconds before. -/
+theorem hist_close_after_every_round (D : DiffOps) (hD : DiffOK D) (st : RState) (pre : List Round) (r : Round) :
+    let st' := runHist D st (pre ++ [r])
+    st'.pub = r.computed ∨ (ClosePub r.thr st'.pub r.computed ∧ ∃ t, st'.lastSync = some t ∧ r.now - t ≤ r.interval) := by
+  simp only [runHist_append, runHist]
+  rcases reconcile_close D hD r.thr r.interval r.now (runHist D st pre) r.computed with h | ⟨h1, h2, h3⟩
+  · left; exact h.1
+  · right; rw [h1]; exact ⟨h2, h3⟩
+
+/-- a stale metric anywhere in a history withdraws all four resources at that round … -/
+theorem hist_degrade (D : DiffOps) (st : RState) (pre : List Round) (r : Round) (h : r.computed = Pub.empty) :
+    (runHist D st (pre ++ [r])).pub = Pub.empty := by
+  simp only [runHist_append, runHist, h]
+  exact reconcile_withdraws D r.thr r.interval r.now _
+
+/-- … and the first round with fresh metrics after it publishes exactly the computed amounts again, provided it
+    computes some resource (presence changes always sync). -/
+theorem hist_recover (D : DiffOps) (st : RState) (pre : List Round) (r r' : Round) (h : r.computed = Pub.empty)
+    (h' : r'.computed.bc.isSome ∨ r'.computed.bm.isSome ∨ r'.computed.mc.isSome ∨ r'.computed.mm.isSome) :
+    (runHist D st (pre ++ [r, r'])).pub = r'.computed := by
+  have e : pre ++ [r, r'] = (pre ++ [r]) ++ [r'] := by simp
+  rw [e, runHist_append]
+  have hp := hist_degrade D st pre r h
+  simp only [runHist, reconcileStep]
+  have : pluginsNeedSync D r'.thr (runHist D st (pre ++ [r])).pub r'.computed = true := by
+    apply presence_change_syncs
+    rw [hp]
+    simp only [Pub.empty, Option.isSome_none]
+    rcases h' with h' | h' | h' | h'
+    · left; simp [h']
+    · right; left; simp [h']
+    · right; right; left; simp [h']
+    · right; right; right; simp [h']
+  simp [this]
+
+/-! ### what Reconcile computes -/
+
+/-- stale or missing NodeMetric ⇒ all four resources are computed absent (mid and batch, cpu and memory). -/
+theorem computed_stale_empty (F : FloatOps) (k : PrioConsts) (df : MidDefaults) (en : Bool) (s : Strategy) (ms : MidStrategy)
+    (n : NodeIn) (allocNil : Bool) (hs : List HostApp) (pods : List PodIn) (mets : List Metric) (mm : MidMetric)
+    (hasUpd : Bool) (now upd : Int) (h : hasUpd = false ∨ now > upd + s.degradeMin * 60) :
+    computedPub F k df en s ms n allocNil hs pods mets mm hasUpd now upd = Pub.empty := by
+  unfold computedPub
+  cases en
+  · rfl
+  · have h1 := mid_stale_withdrawn F k df ms s.degradeMin n allocNil hs pods mm hasUpd now upd h
+    have h2 := degrade_resets F k s n hs pods mets [] hasUpd now upd h
+    simp [h1, h2, batchOutQuantities, batchPrepare, prepareBatchCPU, prepareRes, Pub.empty]
+
+theorem computed_disabled_empty (F : FloatOps) (k : PrioConsts) (df : MidDefaults) (s : Strategy) (ms : MidStrategy)
+    (n : NodeIn) (allocNil : Bool) (hs : List HostApp) (pods : List PodIn) (mets : List Metric) (mm : MidMetric)
+    (hasUpd : Bool) (now upd : Int) :
+    computedPub F k df false s ms n allocNil hs pods mets mm hasUpd now upd = Pub.empty := by
+  simp [computedPub]
+
+/-- fresh metrics, colocation enabled, well-formed node: Reconcile computes exactly the calculators' amounts, so every
+    bound proved for `nodeBatch` / `midAmount` is a bound on what can ever be written to the node. -/
+theorem computed_fresh (F : FloatOps) (k : PrioConsts) (df : MidDefaults) (s : Strategy) (ms : MidStrategy)
+    (n : NodeIn) (hs : List HostApp) (pods : List PodIn) (mets : List Metric) (mm : MidMetric)
+    (now upd : Int) (h : now ≤ upd + s.degradeMin * 60)
+    (hc : 0 ≤ nodeBatch F k s n hs pods mets .cpu) (hm : 0 ≤ nodeBatch F k s n hs pods mets .mem) :
+    computedPub F k df true s ms n false hs pods mets mm true now upd =
+      { bc := some (nodeBatch F k s n hs pods mets .cpu), bm := some (nodeBatch F k s n hs pods mets .mem),
+        mc := some (midAmount F k df ms n hs pods mm .cpu), mm := some (midAmount F k df ms n hs pods mm .mem) } := by
+  have hd : isDegradeNeeded true now upd s.degradeMin = false := by
+    unfold isDegradeNeeded
+    have : ¬ (now > upd + s.degradeMin * 60) := by omega
+    simp [this]
+  have h1 := mid_fresh_published F k df ms s.degradeMin n hs pods mm now upd h
+  have hc' : ¬ (nodeBatch F k s n hs pods mets .cpu < 0) := by omega
+  have hm' : ¬ (nodeBatch F k s n hs pods mets .mem < 0) := by omega
+  simp [computedPub, h1, calculate, hd, batchOutQuantities, batchPrepare, prepareBatchCPU, prepareRes, amplify, hc', hm']
+
+/-- whatever a history feeds in, a node amount is always one that some earlier (or the current) round computed:
+    the controller never invents a value. -/
+theorem hist_pub_from_rounds (D : DiffOps) (st : RState) (rs : List Round) :
+    (runHist D st rs).pub = st.pub ∨ ∃ r ∈ rs, (runHist D st rs).pub = r.computed := by
+  induction rs generalizing st with
+  | nil => left; rfl
+  | cons r rest ih =>
+    simp only [runHist]
+    rcases ih (reconcileStep D r.thr r.interval r.now st r.computed) with h | ⟨r', hr', h⟩
+    · rw [h]
+      simp only [reconcileStep]
+      split
+      · right; exact ⟨r, by simp, rfl⟩
+      · left; rfl
+    · right; exact ⟨r', by simp [hr'], h⟩
+
+/-! ### batch Prepare -/
+
+theorem milliToValue_nonneg (m : Int) (h : 0 ≤ m) : 0 ≤ milliToValue m := by
+  unfold milliToValue; omega
+
+theorem amplify_nonneg (F : FloatOps) (hF : FloatOK F) (r : Option Int) (v : Int) (hv : 0 ≤ v) : 0 ≤ amplify F r v := by
+  unfold amplify
+  cases r with
+  | none => exact hv
+  | some r =>
+    simp only
+    split
+    · exact milliToValue_nonneg _ (hF.mul_nonneg _ _ (by omega) (by omega))
+    · exact hv
+
+/-- Reset (degrade / disabled) ⇒ Prepare removes both batch resources, whatever the annotations say. -/
+theorem batchPrepare_reset (F : FloatOps) (r : Option Int) (an : Bool) (tp : ThirdParty) (qc qm : Option Int) :
+    (batchPrepare F r an tp qc qm true).cpu = none ∧ (batchPrepare F r an tp qc qm true).mem = none := by
+  cases qc <;> cases qm <;> simp [batchPrepare, prepareBatchCPU, prepareRes]
+
+/-- what Prepare writes is non-negative and never above the (amplified) calculated amount; third-party
+    allocations only lower it. -/
+theorem batchPrepare_bounds (F : FloatOps) (hF : FloatOK F) (r : Option Int) (an : Bool) (tp : ThirdParty) (qc qm : Int)
+    (hc : 0 ≤ qc) (hm : 0 ≤ qm)
+    (htp : ∀ a b, tp = .some a b → 0 ≤ a.getD 0 ∧ 0 ≤ b.getD 0) :
+    ∃ c m, (batchPrepare F r an tp (some qc) (some qm) false).cpu = some c ∧
+           (batchPrepare F r an tp (some qc) (some qm) false).mem = some m ∧
+           0 ≤ c ∧ c ≤ amplify F r qc ∧ 0 ≤ m ∧ m ≤ qm := by
+  have ha := amplify_nonneg F hF r qc hc
+  have h1 : ¬ (amplify F r qc < 0) := by omega
+  have h2 : ¬ (qm < 0) := by omega
+  cases tp with
+  | absent => exact ⟨amplify F r qc, qm, by simp [batchPrepare, prepareBatchCPU, prepareRes, h1, h2], by simp [batchPrepare, prepareBatchCPU, prepareRes, h1, h2], ha, Int.le_refl _, hm, Int.le_refl _⟩
+  | bad => exact ⟨amplify F r qc, qm, by simp [batchPrepare, prepareBatchCPU, prepareRes, h1, h2], by simp [batchPrepare, prepareBatchCPU, prepareRes, h1, h2], ha, Int.le_refl _, hm, Int.le_refl _⟩
+  | some a b =>
+    obtain ⟨h3, h4⟩ := htp a b rfl
+    refine ⟨max (max (amplify F r qc) 0 - a.getD 0) 0, max (max qm 0 - b.getD 0) 0, ?_, ?_, ?_, ?_, ?_, ?_⟩
+    · simp [batchPrepare, prepareBatchCPU, prepareRes, h1, h2]
+    · simp [batchPrepare, prepareBatchCPU, prepareRes, h1, h2]
+    all_goals omega
+
+/-- non-vacuity: a history in which the published batch-cpu follows 100 → (98 tolerated) → 80 → withdrawn → 90. -/
+def exRounds : List Round :=
+  [ { thr := 100, interval := 300, now := 0,   computed := { Pub.empty with bc := some 100 } },
+    { thr := 100, interval := 300, now := 60,  computed := { Pub.empty with bc := some 98 } },
+    { thr := 100, interval := 300, now := 120, computed := { Pub.empty with bc := some 80 } },
+    { thr := 100, interval := 300, now := 180, computed := Pub.empty },
+    { thr := 100, interval := 300, now := 240, computed := { Pub.empty with bc := some 90 } } ]
+
+example : (runHist exactDiff RState.init (exRounds.take 2)).pub.bc = some 100 := by decide
+example : (runHist exactDiff RState.init (exRounds.take 3)).pub.bc = some 80 := by decide
+example : (runHist exactDiff RState.init (exRounds.take 4)).pub = Pub.empty := by decide
+example : (runHist exactDiff RState.init exRounds).pub.bc = some 90 := by decide
+
+/-! ## EXTENSION 4 — NUMA zone amounts versus the node amount -/
+
+/-
+FULL STATEMENT asked for ("per-zone amounts sum ≤ node amount"):
+  ∀ …, (Σ_i zoneBatchR … i z_i d) ≤ milli d (nodeBatchR … d)
+It is FALSE for the code as written, for three independent reasons: every zone is clamped at 0 on its own (a zone
+whose pods over-use it publishes 0, the others keep their full amount), the zone allocatables come from the
+NodeResourceTopology object and need not add up to the node capacity, and the safety margin is rounded per zone.
+Counterexample below; what holds per zone is `zone_le_alloc_margin_partial` (plus zone_nonneg / zone_upper / zone_pct_cap).
+-/
+
+/-- 2 zones of 50 on a 100-unit node, one prod pod bound to zone 0 using 80 (policy usage, threshold 100 %):
+    node amount 20, zone amounts 0 and 50: the zones add up to 2.5 × the node amount. -/
+def exZonePods : List RPod := [{ lse := false, hasMetric := true, reqC := 10, reqM := 0, usedC := 80, usedM := 0, numa := [0] }]
+def exZoneStrategy : Strategy := { cpuThr := 100, memThr := 100, cpuPol := .usage, memPol := .usage, cpuCap := none, memCap := none, degradeMin := 15 }
+def exZoneNode : NodeIn := { capC := 100, capM := 0, allocC := 100, allocM := 0, annoC := 0, annoM := 0, sysC := 0, sysM := 0 }
+def exZone : Zone := { hasC := true, hasM := false, allocC := 50, allocM := 0 }
+
+theorem zone_sum_le_node_counterexample :
+    ¬ (zoneBatchR exactOps stdPrio exZoneStrategy exZoneNode [] exZonePods [] 2 0 exZone .cpu
+        + zoneBatchR exactOps stdPrio exZoneStrategy exZoneNode [] exZonePods [] 2 1 exZone .cpu
+       ≤ milli .cpu (nodeBatchR exactOps stdPrio exZoneStrategy exZoneNode [] exZonePods [] .cpu)) := by decide
+
+/-- per zone, every policy (request included): the zone amount never exceeds the zone's allocatable minus its safety
+    margin minus its share of the node reservation (clamped at 0), provided the charged sums are non-negative. -/
+theorem zone_le_alloc_margin_partial (F : FloatOps) (k : PrioConsts) (s : Strategy) (n : NodeIn) (hs : List HostApp)
+    (ps : List RPod) (dg : List Metric) (zn i : Nat) (z : Zone) (d : Dim)
+    (h1 : 0 ≤ (ps.map (zReq F zn i d)).sum)
+    (h2 : 0 ≤ (ps.map (zChargeUsed F zn i d)).sum + zDangling F zn d dg)
+    (h3 : 0 ≤ (ps.map (zChargeMax F zn i d)).sum + zDangling F zn d dg) :
+    zoneBatchR F k s n hs ps dg zn i z d ≤
+      max (milli d (z.alloc d) - milli d (safetyMargin F s d (z.alloc d)) - F.divCeil (milli d (nodeReserved n d)) zn) 0 := by
+  unfold zoneBatchR
+  exact batch_upper_any_policy _ _ _ _ _ _ _ _ _ _ h1 h2 h3
+
+/-- the charged sums are non-negative when requests and usages are (so the hypotheses above are satisfiable and
+    hold on every generated input). -/
+theorem zoneShare_nonneg (F : FloatOps) (hF : FloatOK F) (zn : Nat) (numa : List Int) (i : Nat) (x : Int)
+    (hzn : 0 < zn) (hx : 0 ≤ x) : 0 ≤ zoneShare F zn numa i x := by
+  unfold zoneShare
+  simp only
+  split
+  · exact hF.div_nonneg _ _ hx (by omega)
+  · split
+    · exact hF.div_nonneg _ _ hx (by omega)
+    · omega
+
+theorem sum_map_nonneg {α : Type} (f : α → Int) (l : List α) (h : ∀ x ∈ l, 0 ≤ f x) : 0 ≤ (l.map f).sum := by
+  induction l with
+  | nil => simp
+  | cons x xs ih =>
+    simp only [List.map_cons, List.sum_cons]
+    have := h x (by simp)
+    have := ih (fun y hy => h y (by simp [hy]))
+    omega
+
+theorem zReq_sum_nonneg (F : FloatOps) (hF : FloatOK F) (zn i : Nat) (d : Dim) (hzn : 0 < zn) (ps : List RPod)
+    (h : ∀ p ∈ ps, 0 ≤ p.req d) : 0 ≤ (ps.map (zReq F zn i d)).sum := by
+  apply sum_map_nonneg
+  intro p hp
+  unfold zReq
+  apply zoneShare_nonneg F hF zn _ i _ hzn
+  have := h p hp
+  cases d <;> simp [milli] <;> omega
 
 end KoordVerif.C09
